@@ -8,6 +8,17 @@ from symx import selftest
 def main(tier, t0):
     st = selftest.run(seed(), rounds=30)
     tasks = strfn_check.tasks("C16", tier) + step_check.tasks("C16", tier)
+    from checks import stage_check
+    import json
+    # (c) a cap not smaller than every class changes nothing: the real pipeline of every witness runs with and without the cap
+    tasks += stage_check.tasks_for("C16", tier, scenario="pair:e2e:" + json.dumps({"instances_cap": 50}), judge="SAME", sizes=lambda t, k: [3] if t == "quick" else [2, 3, 4, 5],
+                                   structure_filter=lambda st: st["name"] in ("opt-literal", "ref-vs-iri", "multi-typed", "own-links", "two-datatypes"),
+                                   cfg={"fixed_flags": {"disable_exact_cardinality": False}})
+    tasks += stage_check.tasks_for("C16", tier, scenario="ignore-ns", judge="SAME", sizes=lambda t, k: [3] if t == "quick" else [2, 3, 4, 5],
+                                   structure_filter=lambda st: st["name"] == "ignored-namespace", cfg={"fixed_flags": {"disable_exact_cardinality": False}})
+    tasks += [(m, f, "targets/" + ob, dict(kw, cfg=dict(kw["cfg"], targets=["C", "D"]))) for (m, f, ob, kw) in
+              stage_check.tasks_for("C16", tier, scenario="pair:e2e:" + json.dumps({"instances_cap": 50}), judge="SAME", sizes=lambda t, k: [3],
+                                    structure_filter=lambda st: st["name"] in ("opt-literal", "ref-vs-iri"), cfg={"fixed_flags": {"disable_exact_cardinality": False}})]
     results = run_pool(tasks, budget_s=600 if tier == "quick" else 3000)
     m, sm = strfn_check.meta("C16"), step_check.meta("C16")
     meta = dict(functions_encoded=m["functions_encoded"] + sm["functions_encoded"], bounds=dict(m["bounds"], **sm["bounds"]), stubs=["triples yielder of the tracker / filter: a python stub yielding harness-built model triples"],
